@@ -39,7 +39,9 @@ DEP_VALUED = [1, 2, 3, 4, 5, 6, 7, 8, 9, 10, 11]
 VER_FLAGS = [-1, -2, -4]
 VER_VALUED = [1, 2, 3, 4, 5, 6, 7, 8, 9, 10]
 VALUES = [b"", b"a", b"b", b"peer", b"a b", b"x  y", b'q"uote', b"back\\slash", b"tab\tin", b"1.0", b"*:*|g:a",
-          b"trail\\", b"nl\nx", b"\x7f", b"sp ", b" lead"]
+          b"trail\\", b"nl\nx", b"\x7f", b"sp ", b" lead",
+          # characters that mean something to the schema texts AROUND a type (comment, label, requirement, label reference)
+          b"issue #12", b"a#b", b"c #", b"x@y", b"$v", b"see #7 and #8"]
 
 
 def gen_history(rng, flavor, allow_assign, n):
